@@ -247,6 +247,16 @@ def check(spec, mods):
     return outcome, diffs, E
 
 
+def _leading_gone(mods, bname, k):
+    """the instructions 0..k-1 of the block are all deleted / replaced away by the request: offset k is the block's
+    first surviving position (k == 0 trivially)"""
+    gone = set()
+    for m in mods:
+        if m["op"] in ("del", "rep") and m["b"] == bname:
+            gone.update(range(m["k"], m["k"] + m["n"]))
+    return all(i in gone for i in range(k))
+
+
 def _ins_behind_deleted_endproc(spec, mods):
     """request pattern: code is inserted at offset 0 of a block (or replaces its first instructions) and the code
     block(s) right in front of it are wholly deleted in the same request and carried a .cfi_endproc: the endproc is
@@ -260,7 +270,7 @@ def _ins_behind_deleted_endproc(spec, mods):
     for s_ in spec["sections"]:
         names = [b["n"] for b in s_["blocks"]]
         for m in mods:
-            if m["op"] in ("ins", "rep") and m["k"] == 0 and m["b"] in names:
+            if m["op"] in ("ins", "rep") and m["b"] in names and _leading_gone(mods, m["b"], m["k"]):
                 i = names.index(m["b"]) - 1
                 while i >= 0 and names[i] in whole:
                     if any(d[0] == ".cfi_endproc" for ds in (s_["blocks"][i].get("cfi") or {}).values() for d in ds):
